@@ -1299,6 +1299,9 @@ func (d *DotGit) RemoveRef(name plumbing.ReferenceName) error {
 	_, err := d.fs.Stat(path)
 	if err == nil {
 		err = d.fs.Remove(path)
+		if err == nil {
+			d.removeEmptyRefDirs(name)
+		}
 		// Drop down to remove it from the packed refs file, too.
 	}
 
@@ -1307,6 +1310,20 @@ func (d *DotGit) RemoveRef(name plumbing.ReferenceName) error {
 	}
 
 	return d.rewritePackedRefsWithoutRef(name)
+}
+
+// removeEmptyRefDirs removes the directories left empty by deleting the
+// loose file of name, up to but excluding refs/<category>. A leftover
+// empty directory refs/heads/a would otherwise make it impossible to
+// create the reference refs/heads/a. Removing a directory that is not
+// empty (or already gone) fails and ends the walk.
+func (d *DotGit) removeEmptyRefDirs(name plumbing.ReferenceName) {
+	parts := strings.Split(name.String(), "/")
+	for n := len(parts) - 1; n > 2 && parts[0] == refsPath; n-- {
+		if err := d.fs.Remove(d.fs.Join(parts[:n]...)); err != nil {
+			return
+		}
+	}
 }
 
 func refsRecvFunc(refs *[]*plumbing.Reference, seen map[plumbing.ReferenceName]bool) refsRecv {
